@@ -75,7 +75,7 @@ LISTED_BY = {
 
 
 def is_listed(strategy, name):
-    if strategy is None or name == 'ok':
+    if strategy is None or name in ('ok', 'ok_empty'):
         return False
     kind, what = LISTED_BY[name]
     if kind == 'code':
@@ -107,7 +107,7 @@ def final_matches(cfg, obs, name, k):
     via_send = obs['request'] is not None
     if isinstance(body, BaseException):
         return kind == 'exc' and v is body
-    if name == 'ok':
+    if name in ('ok', 'ok_empty'):
         if rk in ('notification', 'notifbatch'):
             return kind == 'ok' and v is None
         if via_send:
